@@ -163,6 +163,19 @@ func (rs *regScript) issue(p *Peer, hot *LFeat) *regIssued {
 	} else {
 		if omit {
 			ca.Device = nil
+		} else if len(rs.pr.Peers) > 1 && w.T.Bool(1, 6, "delete-names-other-device") {
+			// the client address names the device of another peer (seed C09-f): an entry of this
+			// sender with such a client does not exist - the request is refused and the other
+			// peer's entry (same entity and feature numbers) stays
+			for _, q := range rs.pr.Peers {
+				if q != p {
+					ca.Device = util.Ptr(model.AddressDeviceType(q.Addr))
+					break
+				}
+			}
+			ri.op.Client = fullAddr(ca, p.Addr)
+			ri.op.Desc += "+client-names-other-device"
+			w.Probe("reg-delete-names-other-device")
 		}
 		if rs.kind == "bind" {
 			ri.ctr = p.SendUnbind(ca, server, "unbind")
